@@ -128,6 +128,9 @@ func (r *Report) Finish(verifDir string, anchors *Anchors, allow []Allow, ff *Fi
 	perRule := map[string]int{}
 	for _, o := range r.Obs {
 		have[o.ID()] = true
+		if strings.HasPrefix(o.Key, "control:") {
+			continue // fixture controls are not instances found in the repository
+		}
 		perRule[o.Rule]++
 	}
 	var viol []Ob
